@@ -742,6 +742,13 @@ class BaseConnector:
                 if traces:
                     for trace in traces:
                         await trace.send_connection_queued_end()
+            except BaseException:
+                if fut.done() and not fut.cancelled():
+                    # We were woken up to take a free slot but are not going
+                    # to use it (cancelled or timed out after the wake-up):
+                    # pass it on, or the other waiters are never woken.
+                    self._release_waiter()
+                raise
             finally:
                 # pop the waiter from the queue if its still
                 # there and not already removed by _release_waiter
